@@ -41,6 +41,25 @@ PROPS = {
                        "classically and in here-and-there (both worlds), for every formula (equivalences under any universal prefix).",
         "assumptions": [],
     },
+    "C10": {
+        "units": ["prover"],
+        "level": "other",
+        "property_obligations": ["verdict", "Status::status_of_word", "lemma_all_proven_step", "reveal_status_words"],
+        "carriers": [],
+        "explanation": "Two fragments of the real code are under contract (Verus, unbounded): (a) the `match status {..}` of "
+                       "FromStr for Status: the result is Ok(Theorem) iff the captured word is exactly \"Theorem\", each of the seven SZS words maps to its "
+                       "Status and any other word is an error; (b) the aggregation loop of the Verify arm of procedures::main (print statements dropped): "
+                       "for ANY sequence of prover results, in any order and of any length, success is true iff every result is Ok(report) whose status is "
+                       "Ok(Success(Theorem)). NOT decided: that prove_all yields exactly one result per problem under every schedule (thread pool + channel), "
+                       "byte-identity of the prover's stdin with the saved file, process spawning faults, and the regex that captures the status word.",
+        "assumptions": [
+            "Prover::prove_all (thread pool, channel), Vampire::prove (process, pipes): stand-in `ProverStub::prove_all` with the assumed contract 'returns some finite sequence of results'; "
+            "the schedule/fault half of C10 (exactly once, byte-identical, every completion order) is NOT decided — no thread support in Kani, no std::process model in either verifier",
+            "regex capture `SZS status (?<status>\\w+)` feeding the match is not under contract (regex crate)",
+            "fragment extraction (rule D9): statement ranges of from_str and of procedures::main are copied verbatim, print!/println! calls dropped",
+        ],
+        "not_covered": ["prove_all fan-in", "Vampire::prove", "STATUS regex", "--save-problems byte identity"],
+    },
 }
 
 
